@@ -12,18 +12,18 @@ invariant between two host operations:
 * `Inv [] [] none` — the machine-level invariant of `MachineInvDefs` with no exemption;
 * no current thread, execution-stack depth 0;
 * the timer's dirty flag is sound (`TD`);
-* the clock discipline: `lastClock ≤ clock`, `scaledTime = lastClock = m_time` (the clock moves only
-  between two `Execute` calls, time scale 1).
+* the clock discipline: `lastClock ≤ clock`, `scaledTime = lastClock` (the clock moves only between two
+  `Execute` calls, time scale 1); `m_time = lastClock` as well as long as no snapshot is loaded
+  (`reachable_mtime`, unconditional).
 
 `reachable_hinv`: every state reachable from the initial one by host operations has run out of fuel
-or satisfies `HInv`.  Programs must be `ProgOK` (object ids < 100, no `local.p0 waittill` on a thread
-object); `ProgOK` is decidable.
+or satisfies `HInv`.  Programs must be `ProgOK` (object ids < 100; `local.p0 waittill n` on a thread object
+only with names other than the engine's `delete` / `remove` events); `ProgOK` is decidable and every generator
+family of tools/vlib/schedgen.py satisfies it.
 
-**Not covered** (excluded from `HostOp`): `save` / `load`.  `load` writes a snapshot taken earlier into
-the present context; objects deleted between the two would leave waiters registered on a dead source,
-so `Inv` for the loaded state needs a side condition about the host's objects that the model does not
-track (more in `notes/schedtop-design.md`).  `reachable_inv_partial` carries the suffix for that reason; the
-machine-level sections of `Props/C06, C07, C13` say "without `save`/`load`" in their headers.
+`save` / `load` are not `HostOp`s (they involve the snapshot held by the host); they are added, with their side
+conditions, in `Sched/MachineHostSL.lean` (`ReachableSL`, `reachableSL_hinv3`, `reachableSL_inv`).
+`reachable_inv_partial` keeps its name: it is the statement for histories without them.
 -/
 namespace Morfuse.Sched
 open State
@@ -86,7 +86,6 @@ structure HInv (s : State) : Prop where
   td : TD s.timer
   ck1 : s.lastClock ≤ s.clock
   ck2 : s.scaled = s.lastClock
-  ck3 : s.timer.mtime = s.lastClock
 
 theorem Ok.bind' {a b : State} {P R : Prop} (h : Ok a P) (hp : a.outOfFuel = true → b.outOfFuel = true)
     (k : P → Ok b R) : Ok b R := h.elim (fun o => Or.inl (hp o)) k
@@ -107,10 +106,9 @@ theorem HInv.step {s s' : State} (h : HInv s) (hr : HR s s') (hi : Ok s' (Inv []
   intro ho
   have hc3 := hr.ht.c3
   simp only [Prod.mk.injEq] at hc3
-  refine ⟨hi.get ho, hr.cur h.cur ho, by rw [hr.depth]; exact h.depth, hr.ht.td h.td, ?_, ?_, ?_⟩
+  refine ⟨hi.get ho, hr.cur h.cur ho, by rw [hr.depth]; exact h.depth, hr.ht.td h.td, ?_, ?_⟩
   · rw [hc3.1, hc3.2.2]; exact h.ck1
   · rw [hc3.2.1, hc3.2.2]; exact h.ck2
-  · rw [hr.ht.mtime, hc3.2.2]; exact h.ck3
 
 /-- `P` through a fold of steps that each keep it modulo fuel -/
 theorem ok_foldl {α : Type} (f : State → α → State) (P : State → Prop)
@@ -187,7 +185,7 @@ theorem inv_init : Inv [] [] none ({} : State) := by
   · intro t th h; simp [thFind] at h
 
 theorem hinv_init : HInv ({} : State) :=
-  ⟨inv_init, rfl, rfl, fun _ e he => by simp at he, Nat.le_refl _, rfl, rfl⟩
+  ⟨inv_init, rfl, rfl, fun _ e he => by simp at he, Nat.le_refl _, rfl⟩
 
 /-! ### destroying script instances (`~ScriptClass`, `Reset`, recompile) -/
 
@@ -450,7 +448,7 @@ theorem hostExecute_eq (s : State) :
     hostExecute s = executeRunning defaultFuel (processEvents defaultFuel (frameSetTime s)) := rfl
 
 theorem frameSetTime_hinv {s : State} (h : HInv s) : HInv (frameSetTime s) := by
-  refine ⟨?_, h.cur, h.depth, TD.setTime _ _, Nat.le_refl _, ?_, rfl⟩
+  refine ⟨?_, h.cur, h.depth, TD.setTime _ _, Nat.le_refl _, ?_⟩
   · exact (h.inv.setTimerSame (s.timer.setTime s.clock) rfl).congr rfl rfl rfl rfl rfl rfl rfl rfl rfl
   · show s.scaled + (s.clock - s.lastClock) = s.clock
     have := h.ck1; have := h.ck2; omega
@@ -474,15 +472,15 @@ theorem HostOp.apply_hinv {s : State} (h : HInv s) (op : HostOp) (hok : op.ok) :
   | callv l => exact h.step (hostCallV_hr s l) (hostCallV_inv h.inv l)
   | advance k =>
     exact Ok.pure ⟨h.inv.congr rfl rfl rfl rfl rfl rfl rfl rfl rfl, h.cur, h.depth, h.td,
-      Nat.le_trans h.ck1 (Nat.le_add_right _ _), h.ck2, h.ck3⟩
+      Nat.le_trans h.ck1 (Nat.le_add_right _ _), h.ck2⟩
   | resetDirector => exact h.step (hostReset_hr s) (hostReset_inv h.inv)
   | execute => exact hostExecute_hinv h
   | step k =>
     exact hostExecute_hinv (s := { s with clock := s.clock + k })
       ⟨h.inv.congr rfl rfl rfl rfl rfl rfl rfl rfl rfl, h.cur, h.depth, h.td,
-        Nat.le_trans h.ck1 (Nat.le_add_right _ _), h.ck2, h.ck3⟩
+        Nat.le_trans h.ck1 (Nat.le_add_right _ _), h.ck2⟩
   | takeOut =>
-    exact Ok.pure ⟨h.inv.congr rfl rfl rfl rfl rfl rfl rfl rfl rfl, h.cur, h.depth, h.td, h.ck1, h.ck2, h.ck3⟩
+    exact Ok.pure ⟨h.inv.congr rfl rfl rfl rfl rfl rfl rfl rfl rfl, h.cur, h.depth, h.td, h.ck1, h.ck2⟩
 
 /-- running out of fuel is sticky at the host level too (except through `reset`, which starts afresh) -/
 theorem HostOp.apply_oof {s : State} (op : HostOp) (hne : op ≠ .reset) (ho : s.outOfFuel = true) :
@@ -515,5 +513,30 @@ theorem reachable_hinv {s : State} (h : Reachable s) : Ok s (HInv s) := by
 /-- the machine-level invariant, with no exemption, in every reachable state -/
 theorem reachable_inv_partial {s : State} (h : Reachable s) : s.outOfFuel = true ∨ Inv [] [] none s :=
   (reachable_hinv h).map (fun hi => hi.inv)
+
+/-- the timer's `m_time` is the clock of the last frame — without `save`/`load`, with or without fuel -/
+theorem reachable_mtime {s : State} (h : Reachable s) : s.timer.mtime = s.lastClock := by
+  induction h with
+  | init => rfl
+  | step op _ _ ih =>
+    have key : ∀ {a b : State}, HR a b → a.timer.mtime = a.lastClock → b.timer.mtime = b.lastClock := by
+      intro a b hr e
+      have hc := hr.ht.c3
+      simp only [Prod.mk.injEq] at hc
+      rw [hr.ht.mtime, hc.2.2]; exact e
+    have hex : ∀ a : State, (hostExecute a).timer.mtime = (hostExecute a).lastClock := by
+      intro a
+      rw [hostExecute_eq]
+      exact key (((processEvents_hr defaultFuel (frameSetTime a))).trans ((hrAll defaultFuel).er _)) rfl
+    cases op with
+    | reset => rfl
+    | script p ps => exact key (hostScript_hr _ p ps) ih
+    | call l args => exact key (hostCall_hr _ l args) ih
+    | callv l => exact key (hostCallV_hr _ l) ih
+    | advance k => exact ih
+    | resetDirector => exact key (hostReset_hr _) ih
+    | execute => exact hex _
+    | step k => exact hex _
+    | takeOut => exact ih
 
 end Morfuse.Sched
